@@ -408,7 +408,29 @@ func ruleSGNull(c *Ctx) {
 		}
 		c.Check(ok, key, P.pos(fn.Pos()), "returns {union, [ {null}, s ]}", "the nullable helper does not build [null, T] with null first: "+why)
 	}
+	// the schemas the library itself registers, as folded: [null, T] with null first
+	for _, r := range findRegistrations(P) {
+		if r.Folded == nil || r.Folded.Type != "union" {
+			continue
+		}
+		key := fmt.Sprintf("%s/registered[%s]/null-first", fnKey(r.In), typeKey(r.T))
+		u := r.Folded.Union
+		c.Check(len(u) == 2 && u[0].Type == "null" && u[1].Type != "null", key, P.pos(r.SPos), "the registered schema folds to a union of null and one other type, null first", fmt.Sprintf("the registered schema's union is not [null, T] with null first (%d branches)", len(u)))
+	}
 	c.Rule("SG-NEST", "a union is never wrapped in another union", 6)
+	for _, r := range findRegistrations(P) {
+		if r.Folded == nil || r.Folded.Type != "union" {
+			continue
+		}
+		key := fmt.Sprintf("%s/registered[%s]/no-nested-union", fnKey(r.In), typeKey(r.T))
+		nested := false
+		for _, b := range r.Folded.Union {
+			if b.Type == "union" || len(b.Union) > 0 {
+				nested = true
+			}
+		}
+		c.Check(!nested, key, P.pos(r.SPos), "no branch of the registered union is itself a union", "a branch of the registered union is itself a union")
+	}
 	isHelper := map[*ssa.Function]bool{}
 	for _, h := range helpers {
 		isHelper[h] = true
@@ -424,6 +446,61 @@ func ruleSGNull(c *Ctx) {
 			if t, ok := schemaLiteralType(arg); ok {
 				c.Check(t != "union", key, P.pos(cs.Instr.Pos()), "literal non-union argument ("+t+")", "a union literal is wrapped in a nullable union")
 				continue
+			}
+			// a schema literal whose type name is a string parameter of an unexported helper: decided at each of the
+			// helper's call sites, which must pass a constant other than "union"
+			if ld, isL := arg.(*ssa.UnOp); isL && ld.Op == token.MUL && !token.IsExported(fn.Name()) && fn.Parent() == nil {
+				if a, isA := ld.X.(*ssa.Alloc); isA {
+					if prm, isP := literalFields(a)["Type"].(*ssa.Parameter); isP {
+						idx := -1
+						for i, q := range fn.Params {
+							if q == prm {
+								idx = i
+							}
+						}
+						sites, allConst := 0, true
+						for _, g := range P.ModuleFuncs() {
+							for _, cs2 := range callsIn(g) {
+								if cs2.Static != fn || idx < 0 || idx >= len(cs2.Common.Args) {
+									continue
+								}
+								sites++
+								if t, ok := constString(cs2.Common.Args[idx]); !ok || t == "union" {
+									allConst = false
+								}
+							}
+						}
+						if sites > 0 && allConst {
+							c.OK(key, P.pos(cs.Instr.Pos()), fmt.Sprintf("the argument is a schema literal whose type name is a parameter of %s; each of its %d call sites passes a constant other than \"union\"", fn.Name(), sites))
+							continue
+						}
+					}
+				}
+			}
+			// a parameter of an unexported helper: decided at each of the helper's call sites
+			if prm, isP := arg.(*ssa.Parameter); isP && !token.IsExported(fn.Name()) && fn.Parent() == nil {
+				idx := -1
+				for i, q := range fn.Params {
+					if q == prm {
+						idx = i
+					}
+				}
+				sites, allLit := 0, true
+				for _, g := range P.ModuleFuncs() {
+					for _, cs2 := range callsIn(g) {
+						if cs2.Static != fn || idx < 0 || idx >= len(cs2.Common.Args) {
+							continue
+						}
+						sites++
+						if t, ok := schemaLiteralType(cs2.Common.Args[idx]); !ok || t == "union" {
+							allLit = false
+						}
+					}
+				}
+				if sites > 0 && allLit {
+					c.OK(key, P.pos(cs.Instr.Pos()), fmt.Sprintf("the argument is a parameter of %s; each of its %d call sites passes a literal non-union schema", fn.Name(), sites))
+					continue
+				}
 			}
 			// the argument's Type is known != "union" at the call
 			ok := false
